@@ -280,6 +280,9 @@ Proof.
   - (* WGetBuf *)
     assert (Hk := Hkl eq_refl).
     repeat match type of H with (if ?b then _ else _) = _ => destruct b end; inv_some H; weff_plain Hk.
+  - (* WSetDst *)
+    assert (Hk := Hkl eq_refl).
+    repeat match type of H with (if ?b then _ else _) = _ => destruct b end; inv_some H; weff_plain Hk.
   - (* WJobErr *)
     assert (Hk := Hkl eq_refl). inv_some H. weff_plain Hk.
   - (* WSerial *)
